@@ -200,8 +200,8 @@ func (env *Env) ident(name string) *Val {
 			return env.materialize(v)
 		}
 	}
-	if g, ok := env.st.ghost["g:"+name]; ok {
-		return &Val{T: g, Ty: tInt}
+	if e.ghostSpec(name) != nil {
+		return e.ghostGet(env.st, name)
 	}
 	// package scope
 	if env.pkg != nil {
@@ -565,6 +565,15 @@ func (env *Env) call(n *ast.CallExpr) *Val {
 			t := env.evalType(n.Args[1])
 			_, ub, _ := e.boxFuncs(t)
 			return &Val{T: sx(ub, v.T), Ty: t}
+		case "add", "remove":
+			// set update: add(s, x) / remove(s, x) on a ghost set
+			s := env.eval(n.Args[0])
+			x := env.eval(n.Args[1])
+			b := "true"
+			if id.Name == "remove" {
+				b = "false"
+			}
+			return &Val{T: sx("store", s.T, x.T, b), Ty: s.Ty}
 		case "mhas", "mval":
 			return env.absMap(id.Name, n.Args)
 		case "decimal1", "decimal1val":
@@ -809,6 +818,10 @@ func (e *Engine) specSort(env *Env, kw string) (string, types.Type) {
 		return "(Array Int Int)", types.NewArray(tInt, 0)
 	case "strarr":
 		return "(Array Int String)", types.NewArray(tString, 0)
+	case "intset":
+		return "(Array Int Bool)", types.NewArray(tBool, 0)
+	case "strset":
+		return "(Array String Bool)", types.NewArray(tBool, 0)
 	}
 	// Go type expression
 	x, err := parseTypeExpr(kw)
